@@ -564,16 +564,29 @@ HIST_FAMILIES['guillot'] = HIST_FAMILIES['guillot'] + [['__planet__', ['planet_m
                                                        ['__planet__', ['planet_radius', 0.5]]]
 
 
-def hist_make(fam):
+def hist_make(fam, net=None):
+    """net: settings to go into the constructor (the fresh comparison object of the history phase is built from the net
+    settings directly, not by repeating the setter calls)."""
     from taurex.data.profiles.temperature import NPoint, Guillot2010, Rodgers2000, Isothermal
+    net = dict(net or {})
     if fam == 'npoint':
-        return NPoint(T_surface=1500.0, T_top=1000.0, temperature_points=[1200.0], pressure_points=[1e3],
-                      P_surface=1e6, P_top=1e-1, smoothing_window=10, limit_slope=600.0)
+        return NPoint(T_surface=net.get('T_surface', 1500.0), T_top=net.get('T_top', 1000.0),
+                      temperature_points=[net.get('T_point1', 1200.0)], pressure_points=[net.get('P_point1', 1e3)],
+                      P_surface=net.get('P_surface', 1e6), P_top=net.get('P_top', 1e-1), smoothing_window=10,
+                      limit_slope=600.0)
     if fam == 'guillot':
-        return Guillot2010(T_irr=1500.0, kappa_irr=0.01, kappa_v1=0.005, kappa_v2=0.002, alpha=0.3, T_int=200.0)
+        return Guillot2010(T_irr=net.get('T_irr', 1500.0), kappa_irr=net.get('kappa_irr', 0.01),
+                           kappa_v1=net.get('kappa_v1', 0.005), kappa_v2=net.get('kappa_v2', 0.002),
+                           alpha=net.get('alpha', 0.3), T_int=net.get('T_int_guillot', 200.0))
     if fam == 'rodgers':
-        return Rodgers2000(temperature_layers=[1500.0, 1300.0, 1100.0, 900.0, 700.0])
-    return Isothermal(T=1000.0)
+        layers = [1500.0, 1300.0, 1100.0, 900.0, 700.0]
+        for i_ in range(5):
+            layers[i_] = net.get('T_%d' % (i_ + 1), layers[i_])
+        kw = {}
+        if 'correlation_length' in net:
+            kw['correlation_length'] = net['correlation_length']
+        return Rodgers2000(temperature_layers=layers, **kw)
+    return Isothermal(T=net.get('T', 1000.0))
 
 
 def hist_eval(t):
@@ -597,8 +610,8 @@ def hist_fn(case):
 
     pnet = {}
 
-    def fresh(planet=None):
-        t = hist_make(fam)
+    def fresh(planet=None, netkw=None):
+        t = hist_make(fam, netkw)
         if planet is None:
             planet = Planet()
             for n_ in sorted(pnet):
@@ -625,10 +638,12 @@ def hist_fn(case):
             net[name] = value
         names.append(name)
         got = hist_eval(live)
-        f = fresh()
-        for n_ in sorted(net):
-            f.fitting_parameters()[n_][3](net[n_])
-        want = hist_eval(f)
+        from taurex.exceptions import InvalidModelException
+        try:
+            f = fresh(netkw=net)        # the net settings as constructor arguments
+            want = hist_eval(f)
+        except InvalidModelException as e:      # a constructor may already refuse the values
+            want = ('invalid', type(e).__name__)
         sig = '%s/ops=%s' % (fam, '>'.join(names))
         ok = r.check(got[0] == want[0], 'history-verdict', 'history-verdict/' + sig, live=got[0], fresh=want[0],
                      hist=case['hist'][:k + 1])
